@@ -5,10 +5,11 @@ pushXds / processDeltaRequest / pushDeltaXds / forceEDSPush / push loops: what i
 watch table (ProcessTheorems) -, the receive side (RecvTheorems), record = last request over every schedule of the SotW and of
 the delta closed loop (ProtocolTheorems, DeltaTraceTheorems, DeltaProtocolTheorems), no loop at trace level (NoLoopTheorems,
 DeltaNoLoopTheorems), crash freedom.
-Tie: T-diff - the real functions of /repo vs the Lean model, same op lines, line by line: streams sotw, delta, warm (ShouldRespond
+Tie: T-diff - the real functions of /repo vs the Lean model, same op lines, line by line, 14 streams: sotw, delta, warm (ShouldRespond
 / Send / shouldRespondDelta / sendDelta on a real model.Proxy), loop, dloop (closed loops), proc, dproc (the real request / push
-handlers on a recording stream with recording generators), recv (the real Receive / receiveDelta on a real DiscoveryServer),
-enum, denum (exhaustive single-step enumeration).
+handlers on a recording stream with recording generators), tproc (the same for every type-URL constant), types + GenTie (type
+table), recv (the real Receive / receiveDelta on a real DiscoveryServer), sloop (the real Stream / StreamDeltas loops), enum, denum,
+enum2 (exhaustive single-step and bounded multi-step enumeration).
 On break: harness `oracle` evaluates the property's clauses on the real code, keyed on the history of the exchange.
 """
 import os
@@ -123,7 +124,8 @@ def _distinct_tie_names(ctx):
         import json
         n = len(ctx.violations)
         orig_violation(fingerprint, what, replay_obj, found_input)
-        if len(ctx.violations) > n and isinstance(replay_obj, dict) and replay_obj.get("ops"):
+        # never in --replay mode: lib then writes `<input>.again.json` so that a replay run does not rewrite its input
+        if not ctx.replay and len(ctx.violations) > n and isinstance(replay_obj, dict) and replay_obj.get("ops"):
             v = ctx.violations[-1]
             h = hashlib.sha1(json.dumps(replay_obj.get("ops")).encode()).hexdigest()[:8]
             new_path = v["path"][:-5] + "-" + h + ".json"
@@ -138,11 +140,14 @@ def _distinct_tie_names(ctx):
 
 def run(ctx):
     _distinct_tie_names(ctx)
-    ctx.rule = ("cases = random request/send sequences (1-40 ops) over 10 xDS types, names within {a,b,c}(+'*' for delta), "
-                "nonce in {empty,current,stale,of a failed send}, with/without error_detail, send ok/fail, biased to conformant ACKs "
-                "(sotw, delta, warm); closed-loop schedules (loop, dloop); request/push sequences with scripted generator answers "
-                "(proc, dproc); scripted first requests (recv); every (state class x request class) over a tiny universe (enum, denum); "
-                "distinct = hash of (ops, implementation outputs); non-trivial = at least one op")
+    ctx.rule = ("cases of 14 streams: random request/send sequences (1-40 ops) over 10 xDS types, names within {a,b,c,*}, nonce in "
+                "{empty,current,stale,of a failed send}, with/without error_detail, send ok/fail (sotw, delta, warm); closed-loop "
+                "schedules with undelivered answers and other types' requests (loop, dloop); request/push sequences with scripted "
+                "generator answers incl. nil / error / delta-aware, gRPC, Forced / non-Endpoints pushes (proc, dproc); the same for "
+                "EVERY type-URL constant of the tree (tproc, types); scripted first requests on a real server (recv); 20 scenarios in "
+                "the real Stream / StreamDeltas loops (sloop); every (state class x request class) and every 2-step (thorough 3-step) "
+                "op sequence over a tiny universe (enum, denum, enum2); distinct = hash of (ops, implementation outputs); "
+                "non-trivial = at least one op")
     ctx.assumptions = [
         "a real Envoy/ztunnel behaves like the conformant clients of Protocol.lean / DeltaProtocol.lean: it answers every response with "
         "exactly one ACK or NACK echoing that response's nonce (SotW: carrying its current names; delta: attaching the subscription "
@@ -153,8 +158,12 @@ def run(ctx):
         "tail_responses_bounded / dtail_responses_bounded bound the responses of a run in which the environment is quiet (no further "
         "subscription change, push or warming mark); a bound for schedules WITH such events (each can cost a bounded number of "
         "responses) is not proved",
-        "gRPC framing and the stream goroutines (select loop of Stream / StreamDeltas, channel hand-over) are outside the model; "
-        "Send / sendDelta are modelled by their watch update; generators are abstract (any answer) in the theorems and scripted in the tie",
+        "gRPC framing is outside the model; the select loops of Stream / StreamDeltas are modelled as an ordered event list "
+        "(StreamLoop.lean) and executed in 20 scripted scenarios (sloop), the channel hand-over of Receive in recv / sloop; Send / "
+        "sendDelta are modelled by their watch update; generators are abstract (any answer) in the theorems and scripted in the tie",
+        "sloop observes the real loops through wall-clock waits: up to 20 s for a response or for the stream function to return "
+        "(a miss is reported as stream-does-not-end), 150 ms for 'the loop is idle' (too short a wait sends the request to the other "
+        "select arm, which behaves alike: no false alarm), 50 ms after cancelling a context",
         "features.EnableUnsafeAssertions is off (production default): the panic in shouldRespondDelta's 'subscribed resources check "
         "mismatch' branch is not modelled and not executed",
         "delta trace theorems assume ReqsOK: initial_resource_versions only on the first request of a type on a stream (the single-step "
@@ -182,7 +191,14 @@ def run(ctx):
     if not ctx.go_build():
         return
     have_table = gen_table(ctx)
-    proved = ctx.lean_prove(THEOREMS if have_table else [m for m in THEOREMS if not m.endswith("GenTie")])
+    # every Lean file the proofs rest on is grepped for forbidden constructs: C04's own, the generated table, and the two
+    # C03 files Process.lean imports
+    d = os.path.join(os.path.dirname(os.path.dirname(os.path.abspath(__file__))), "lean", "IstioModel")
+    all_mods = ["IstioModel.C04." + f[:-5] for f in sorted(os.listdir(os.path.join(d, "C04"))) if f.endswith(".lean")]
+    all_mods += ["IstioModel.C03.Model", "IstioModel.C03.Server", "IstioModel.Common.Wire"]
+    if have_table:
+        all_mods.append("IstioModel.Generated.C04Types")
+    proved = ctx.lean_prove(THEOREMS if have_table else [m for m in THEOREMS if not m.endswith("GenTie")], all_mods=all_mods)
     if not ctx.build_drv():
         return
     # every type constant judged against the xDS protocol on the real predicates (oracle only; found input for a table break)
@@ -213,7 +229,7 @@ def run(ctx):
     ctx.diff_stream("enum2", 10 ** 9, oracle=oracle)
     # the REAL event loops xds.Stream / StreamDeltas on a real DiscoveryServer through fake gRPC streams: a failing request
     # ends the stream, every push reaches the connection (pushEv.done), Context().Done(), EOF
-    ctx.diff_stream("sloop", 8, oracle=oracle)
+    ctx.diff_stream("sloop", 20, oracle=oracle)
     # the receive side: malformed first requests through the real xds.Receive / receiveDelta on a real DiscoveryServer,
     # every forwarded request then through the real processRequest / processDeltaRequest (crash freedom)
     ctx.diff_stream("recv", ctx.n(600, 6000), oracle=oracle)
@@ -306,7 +322,7 @@ MANIFEST = {
                    "Assumed: Envoy / ztunnel is the conformant client of Protocol.lean / DeltaProtocol.lean. The closed loops (loop, dloop) "
                    "compose the real ShouldRespond / Send / shouldRespondDelta / sendDelta with a model client; the real handlers and "
                    "generators run in proc / dproc / tproc / recv on scripted request sequences and in sloop inside the real Stream / "
-                   "StreamDeltas loops (8 scripted scenarios), not inside a generated closed loop. Not modelled: gRPC framing; the "
+                   "StreamDeltas loops (20 scripted scenarios: both select arms, refused stream, transport error, failed send, stop, NACK / stale / overtaken ACK, pushes, cancelled context, EOF), not inside a generated closed loop. Not modelled: gRPC framing; the "
                    "interleaving of requests and pushes is the order of the model's event list (Go's select picks one). Not executed: "
                    "findGenerator's metadata / proxy-type keyed lookups, agentgateway collections, LastSendTime, the effect of "
                    "computeProxyState on generation; recv requests carry no names / nonce / initial versions; dloop has no "
